@@ -161,6 +161,7 @@ package grpctunnel
 //@   nopanic[C09]
 
 //@ func (*defaultReceiver).handleClosure
+//@   requires held(r.mu)
 //@   inline
 
 //@ func (*defaultReceiver).close
@@ -721,7 +722,9 @@ package grpctunnel
 //@   field gotHeadersSignal immutable signal closedby metaMu
 //@   field doneSignal immutable signal closedby done
 //@   field done token
-//@   field gotHeaders, headers, trailers guarded_by metaMu
+//@   field gotHeaders guarded_by metaMu
+//@   field headers guarded_by metaMu readers Header
+//@   field trailers guarded_by metaMu readers Trailer
 //@   field readErr guarded_by readMu
 //@   field numSent, halfClosed guarded_by writeMu
 //@   field metaMu, readMu, writeMu monitor
@@ -969,6 +972,7 @@ package grpctunnel
 
 //@ func (*tunnelChannel).allocateStream
 //@   requires held(c.streamCreation)
+//@   requires[C15] isClosed(c.awaitSettings)
 //@   requires ctx != nil
 //@   loop 1 invariant true
 //@   loop 2 invariant[C02,C09] @mdalloc md != nil
@@ -1569,9 +1573,11 @@ package grpctunnel
 //@   at call RecvMsg#1
 //@     assert[C15] @serialised held(h.recvMu)
 //@ func (*threadSafeOpenReverseTunnelClient).CloseSend
+//@   locks h.sendMu
 //@   at call CloseSend#1
 //@     assert[C15] @serialised held(h.sendMu)
 //@ func (*threadSafeOpenReverseTunnelClient).SendMsg
+//@   locks h.sendMu
 //@   at call SendMsg#1
 //@     assert[C15] @serialised held(h.sendMu)
 //@ func (*threadSafeOpenReverseTunnelClient).Recv
